@@ -21,6 +21,7 @@ HOW TO BUILD AND TEST (offline; 16 cores but shared with others, so use -j8):
   cmake -G Ninja -S {wt} -B {wt}/_build -DBUILD_TESTS=ON -DENABLE_ECC=ON -DENABLE_EDDSA=ON -DCMAKE_BUILD_TYPE=RelWithDebInfo > /dev/null
   cmake --build {wt}/_build -j8
   ctest --test-dir {wt}/_build -j8 --timeout 900        # full suite: takes ~5 minutes; ALL tests must pass with each change applied
+NOTE: in this environment the suite takes only ~15 s, and on the UNMODIFIED tree 7 single-DES CppUnit cases (DESTests::testCBC/ECB/OFB/CFB, SymmetricAlgorithmTests::testDesEncryptDecrypt, DeriveTests::testSymDerive, ObjectTests::testCreateSecretKey) fail because OpenSSL's legacy provider is not active; "passes" therefore means: exactly the same result as the unmodified tree (no additional failing case). Compare the per-case output of the test binaries, not only ctest's summary.
 The built library is {wt}/_build/src/lib/libsofthsm2.so. A demo program needs a config file: create a temp dir, write a softhsm2.conf with "directories.tokendir = <tempdir>/tokens", "objectstore.backend = file", "log.level = ERROR", "slots.removable = false" and export SOFTHSM2_CONF=<that file> before the library is loaded (C_Initialize). PKCS#11 headers are in {wt}/src/lib/pkcs11 (include cryptoki.h or pkcs11.h; define the CK_* platform macros as src/lib/pkcs11/cryptoki.h does). Build the baseline first, verify the demo passes on the baseline, then apply change 1, rebuild, run demo (must fail) and the full ctest (must pass); then revert (git checkout -- src), and repeat for change 2.
 
 DELIVERABLES, for N in 1,2, under {wt}/_seed/N/ :
